@@ -78,38 +78,19 @@ def check_live(case, interior_cap: int) -> Outcome:
             if r.status != 200:
                 out.fail(f"init/{ctype}/{r.status}", f"T={T.isoformat()} manifest {url} init {iu} -> {r.status} {r.exc!r}")
         try:
-            tl = tpl.timeline()
-        except mpd.MpdError as exc:
+            adv = session.advertised_live(rep, now, case.get("interior", [])[:interior_cap])
+        except mpd.MpdError:
             out.trivial = "timeline-unparsable"
             continue
+        if adv is None:
+            continue
+        mode, total = adv["mode"], adv["total"]
         segdur = Fraction(tpl.duration, tpl.timescale) if tpl.duration else None
-        if tl is not None:
-            origin = m.ast + rep.period.start
-            avail = [(i, t, d) for i, (t, d) in enumerate(tl)
-                     if origin + Fraction(t + d - tpl.pto, tpl.timescale) <= now]
-            mode = "time" if rep.uses_time else "tl-number"
-            total = len(avail)
-        else:
-            if tpl.duration is None:
-                continue
-            mode = "number"
-            win = mpd.number_window(rep, now)
-            total = 0 if win is None else win[1] - win[0] + 1
         out.cls("addr:" + mode)
         if total == 0:
             out.cls("empty-window")
             continue
-        chosen = []     # (window index, label, url)
-        for j in session.pick_indices(total, 3, case.get("interior", [])[:interior_cap]):
-            if tl is not None:
-                i, t, d = avail[j]
-                if rep.uses_time:
-                    chosen.append((j, f"$Time$={t} d={d}", rep.media_url(time=t)))
-                else:
-                    chosen.append((j, f"$Number$={tpl.start_number + i} (S t={t})", rep.media_url(number=tpl.start_number + i)))
-            else:
-                n = win[0] + j
-                chosen.append((j, f"$Number$={n}", rep.media_url(number=n)))
+        chosen = [(j, what, u) for j, what, u, _, _, _ in adv["items"]]
         if segdur is not None and m.tsbd is not None:
             out.cls("depth<seg" if m.tsbd < segdur else "depth=seg" if m.tsbd == segdur else
                     "depth>>seg" if m.tsbd > 20 * segdur else "depth>seg")
